@@ -104,6 +104,8 @@ pub fn gen(seed: u64, thorough: bool) {
         push_u(&mut line, overlaps);
         println!("{}", line);
     }
+    // ---- (a2) rate / frame-period histories with alignment on and time-stamped strings
+    gen_units(&mut rng, &src, if thorough { 300 } else { 40 });
     // ---- (b) setter histories ending in the same values: same getters, same waveform
     let nhist = if thorough { 2000 } else { 150 };
     for _ in 0..nhist {
